@@ -43,7 +43,8 @@ type Stats struct {
 	Violations []string       `json:"violations"`
 	Infra      []string       `json:"infra"`
 	Steps      int64          `json:"steps"`
-	SimNanos   int64          `json:"sim_nanos"`
+	SimNanos   int64          `json:"sim_nanos"` // (kept for old readers; saturates)
+	SimSecs    float64        `json:"sim_secs"`
 	Decisions  int64          `json:"decisions"`
 	Contended  int64          `json:"contended"`
 	TimerFires int64          `json:"timer_fires"`
@@ -189,7 +190,10 @@ func main() {
 			hashLines = append(hashLines, fmt.Sprintf("%d %d %d %d %s", idx, res.TraceHash, res.Steps, int64(res.Now), cl))
 		}
 		st.Steps += int64(res.Steps)
-		st.SimNanos += int64(res.Now)
+		st.SimSecs += float64(res.Now) / 1e9 // (runs with periods of years: the sum does not fit int64 nanoseconds)
+		if st.SimNanos+int64(res.Now) > st.SimNanos {
+			st.SimNanos += int64(res.Now)
+		}
 		st.Decisions += int64(len(res.Tape))
 		st.Contended += int64(res.Contended)
 		st.TimerFires += int64(res.TimerFires)
